@@ -11,6 +11,9 @@ def add(id, technique, text, note):
 add("C01", "crash-isolated runtime exploration: Go runtime checks (panic via recover, fatal errors and hangs via worker exit status, write-ahead progress log and watchdogs) under systematic sweeps, grammar programs, byte mutations and resource shapes",
     "Runtime exploration: complete sweeps of every registered filter/resolver step/tag form over a ~100-value zoo of Go context values, grammar-generated programs over the whole vocabulary with loader files, byte-level mutations of fixtures, and 38 resource shapes (deep nesting, all macro recursion routes, cyclic file graphs) run in isolated worker processes; the oracle is the result shape (exactly one of template/error, output/error) plus absence of panic, process death and confirmed hang. Held = none observed on the executions run.",
     "Unbounded 'never loops forever' is restated as bounded progress (per-case watchdog 40 s, confirmed on an isolated re-run with 150 s). Context functions/Stringers are total by construction. Must*/Render* wrappers that are documented to panic are not exercised.")
+add("C02", "information-flow (taint) runtime monitor: uniquely marked context strings, output scanned for raw marker material; filter sweep plus random opt-out-free programs; repeated executions with swapped safe/tainted contexts",
+    "Runtime exploration: every string leaf of a ~110-value context carries a marker made of < > & ' \"; all registered filters (minus declared opt-outs) are swept in 17 syntactic positions and random opt-out-free programs over the whole vocabulary (files, macros, inheritance, filter tag, array literals ...) are executed; the output is scanned for any raw special character that is not engine-originated. Held = no leak on the executions observed.",
+    "Template text and literals are generated free of the special characters; the only engine-originated markup accepted is the '<type Value>' placeholder. In programs using the filter tag (which post-processes rendered text and can mangle that placeholder) a lone < or > and raw & are not judged; quotes and angle brackets adjacent to a raw & still are.")
 add("C06", "metamorphic runtime monitor (identity / concatenation relations) over exhaustive short strings and random fragment sequences; counting context function as evaluation probe",
     "Runtime exploration: every string up to length 5/6 over the lexer-significant alphabet is compiled and rendered (exhaustive for that sub-space), plus random byte strings and fragment sequences; the oracle compares the engine's output with the source / the concatenation of the parts' renderings and watches a call counter placed inside comments. Held means: no deviation on the executions observed.",
     "Trusts the Go runtime and the harness' fragment generator (seams never create an opening delimiter). Whitespace control is excluded (C15).")
